@@ -375,6 +375,7 @@ package httpgrpc
 //@   ensures[C11] nothing_after_a_failed_write: stream_handler_ran && str.writeFailed ==> !called(writeProtoMessage)
 //@   assert_call[C11,C02] writeProtoMessage : is_the_final_frame_of_this_reply: arg0 == w && arg1 == lastresult(getStreamingCodec) && arg3 && typeis(arg2, "*HttpTrailer") && unbox(arg2, "*HttpTrailer") == &tr
 //@   assert_call[C02] writeProtoMessage : success_has_code_zero: err == nil ==> tr.Code == 0
+//@   assert_call[C05] writeProtoMessage : the_final_status_does_not_wait_for_the_clients_request_body: rd_avail(r.Body) <= 0 || called("(*http.ResponseController).EnableFullDuplex")
 //@   assert_call[C02] writeProtoMessage : failure_has_nonzero_code: err != nil ==> tr.Code != 0
 //@   assert_call[C02] writeProtoMessage : failure_carries_the_handlers_status: err != nil && is_status_err(err) && 0 < err_status_code(err) && err_status_code(err) <= 2147483647 ==> tr.Code == err_status_code(err) && (valid_utf8(err_status_msg(err)) ==> tr.Message == err_status_msg(err)) && tr.Details == err_status_details(err)
 //@   assert_call[C02] writeProtoMessage : the_status_message_can_be_carried_by_the_frame: valid_utf8(tr.Message)
